@@ -8,6 +8,7 @@
 //	c13 xresp  <issuer name variant> <responder name variant> <the fields of resp>   T2 + T3   the same round trip over certificates with exotic names (xpki.go)
 //	c13 req    <ca> <hash> <serial> <nilopts>              T3        CreateRequest -> ParseRequest (ca >= 100: issuer with an exotic name, see entAt)
 //	c13 reqm   <hash> <namehash> <keyhash> <serial>        T3        Request.Marshal -> ParseRequest
+//	c13 enc    <ca> <mode> <keyKind> <reqAlgo> <template…> <hashes> <responder name> <sig> <cert|n>   T2 + T3   CreateResponse byte for byte vs ZV.Model.C13Enc (enc.go)
 //	c13 tamper <ca> <cert n|serial> <from> <to> <nmask> <seed> <derhex>   T3  every single-byte mutation in [from,to)
 //	c13 tstruct <ca> <cert n|serial> <part> <nparts> <seed> <derhex>      T3  all 255 values at every structural position (tags, lengths, unused-bits octet, algorithm identifiers)
 package c13
@@ -1219,6 +1220,8 @@ func exec(line string) zv.Out {
 		return execTime(f[1:])
 	case "schema":
 		return execSchema(f[1:])
+	case "enc":
+		return execEnc(f[1:])
 	}
 	panic("unknown sub-op " + f[1])
 }
@@ -1232,10 +1235,11 @@ func gen(g *zv.Gen) {
 	genDer(g)
 	genRq(g)
 	genTime(g)
+	genEnc(g)
 	genTamper(g)
 }
 
 func init() {
 	zv.Register(&zv.Prop{ID: "C13", Topic: "c13", Gen: gen, Exec: exec, Timeout: 20 * time.Minute, // the all-positions x all-255-values tamper lines are heavy; on a loaded machine 2 min was not enough
-		Rule: "decide: hand-assembled OCSP responses (0..4 single responses with duplicate serials and every CHOICE-arm combination, 0..2 embedded certificates in 10 signer/certificate arrangements, good/corrupted signatures, signature BIT STRINGs declaring 1..7 unused bits over a value ending in zero bits, swapped TBS, responder by name/key hash/bad tag, status/type/trailing-data/truncation variants) x 6 issuers x issuer or nil x cert nil/matching/absent, decoded independently with the standard library into the model's abstract input; bytes: the same cases with the Lean side decoding the DER itself through its encoding/asn1 model and feeding the decision model (only the x509.ParseCertificate result and the three signature-primitive bits are taken from the line); resp: CreateResponse templates (issuers RSA-1024/2048, P-256, P-384, P-224, P-521 and delegated responders P-256, RSA-2048, RSA-1024, P-384, P-521, P-224 x 6 signer modes x default and each of 13 requested signature algorithms x status x reason x issuer hash x extensions x times incl. GeneralizedTime bounds, nanoseconds, zones) parsed back and compared field by field, the accept/refuse decision and the resulting SignatureAlgorithm compared with the Lean model of signingParamsForPublicKey, and each created response re-parsed with its signature BIT STRING re-declared with k unused bits (k up to the number of trailing zero bits), one flipped bit in TBS and signature, and a changed algorithm OID; req: CreateRequest/Marshal -> ParseRequest over all crypto.Hash ids; tstruct: ALL 255 values at every structural byte (tags, every length octet of every wrapper, unused-bits octets, algorithm identifiers, status, response type; 12 masks on the first/last content bytes and in the embedded certificate's outer algorithm) of responses of every issuer x {issuer-signed with >= 7 trailing zero signature bits, delegated, issuer-signed + certificate, hand-assembled two certificates / key-hash responder / 3 single responses}; tamper: every byte position of signed responses x walking-bit and random masks, all 255 values at every position of one response (thorough: of 18), random windows x 6-12 masks. An accepted mutant is a violation unless tbsResponseData, the signature BIT STRING (value, BitLength) and the signatureAlgorithm OID are byte-identical (by position in the original and by an independent decode of the mutant), every reported field is unchanged, golang.org/x/crypto/ocsp accepts it too, and the difference is one of: wrapper (length octets of EXPLICIT wrappers / algorithm parameters, which encoding/asn1 does not compare), trailing-cert (certificates after the first), cert-dropped (certs field no longer recognised AND the response verifies directly under the issuer with the standard library), cert-outer (first embedded certificate differs outside its tbsCertificate and signatureValue, both byte-identical). schema: the declarations of ocspRequest / responseASN1 / basicResponse (all nested types, field order, struct tags through the real parseFieldParameters) by reflection against the model's schema terms; der: the two asn1.Unmarshal calls of ParseResponseForCert on ocsp.go's own struct types (hook) against the Lean decode through its encoding/asn1 model at the schema terms of those types — responses of the assembler, hand-built responses with 0..4 single responses over every optional part (version, key-hash / odd responder ids, UTCTime in place of GeneralizedTime, zone offsets, NULL / absent / other algorithm parameters, unused signature bits, 0..2 certificates, 0..3 extensions with critical absent / TRUE / explicit FALSE, trailing elements), and mutants: a value set at EVERY identifier and length octet of the TLV tree, random single bytes, truncations; every decoded field is compared (status, type, TBS bytes, version, responder id, times as Unix seconds, hash OID and parameters, hashes, serial, CHOICE arms, reason, extensions, algorithm OID, signature bytes and BitLength, certificate count and sizes, both rests); rq: Request.Marshal bytes + ParseRequest of them; rqd: ParseRequest on marshalled requests, their header/random mutants and hand-built requests with version / requestor name / several entries; time: UTCTime / GeneralizedTime contents (boundary dates x leap years x zones, every position x substitutions / deletions / insertions, random fields) through asn1.Unmarshal into time.Time, with the standard library's encoding/asn1 as differential oracle (also for der). xresp: the resp round trip over hand-assembled certificates whose subject / issuer DER is not Go's own encoding (19 name variants: UTF8String for ASCII, IA5, Teletex, BMP, Numeric, Universal strings, PrintableString with & and *, multi-valued RDNs sorted and unsorted, empty values, empty name, long-form lengths, non-string values, repeated types) as issuer (6 keys) x delegated responder, every (issuer name, responder name) pair x 5 signer arrangements: RawResponderName, the responder id and issuerNameHash inside the produced DER, and Raw / RawSubject / RawIssuer / RawSubjectPublicKeyInfo of issuer, responder and parsed embedded certificate are compared with the bytes the certificates were CONFIGURED from; req lines over the same issuers; decide/bytes lines with these certificates as issuer / signer / embedded certificate. decide serial lists: signed multi-entry responses for every list of length 2..3 over {+N, -N, N+1} and length-4 lists with both signs twice / zero, N at the DER INTEGER byte boundaries, equal magnitudes carrying different statuses, asked for +N, -N, N+1, -(N+1); random lists draw from +-pairs and ask for the negation of a listed serial. Repeat oracle (every accepted decide line, every resp/xresp line, rqd): on the SAME bytes and certificate objects ask for every serial of the response, its negation and successor (first exact match and its status, or error), repeat the original call (same answer and raw fields), and check DER, certificate, issuer raw fields and the CreateResponse template (DeepEqual with a second copy) unchanged. A case is one distinct line; a tamper/tstruct line covers a position set of one response."})
+		Rule: "decide: hand-assembled OCSP responses (0..4 single responses with duplicate serials and every CHOICE-arm combination, 0..2 embedded certificates in 10 signer/certificate arrangements, good/corrupted signatures, signature BIT STRINGs declaring 1..7 unused bits over a value ending in zero bits, swapped TBS, responder by name/key hash/bad tag, status/type/trailing-data/truncation variants) x 6 issuers x issuer or nil x cert nil/matching/absent, decoded independently with the standard library into the model's abstract input; bytes: the same cases with the Lean side decoding the DER itself through its encoding/asn1 model and feeding the decision model (only the x509.ParseCertificate result and the three signature-primitive bits are taken from the line); resp: CreateResponse templates (issuers RSA-1024/2048, P-256, P-384, P-224, P-521 and delegated responders P-256, RSA-2048, RSA-1024, P-384, P-521, P-224 x 6 signer modes x default and each of 13 requested signature algorithms x status x reason x issuer hash x extensions x times incl. GeneralizedTime bounds, nanoseconds, zones) parsed back and compared field by field, the accept/refuse decision and the resulting SignatureAlgorithm compared with the Lean model of signingParamsForPublicKey, and each created response re-parsed with its signature BIT STRING re-declared with k unused bits (k up to the number of trailing zero bits), one flipped bit in TBS and signature, and a changed algorithm OID; req: CreateRequest/Marshal -> ParseRequest over all crypto.Hash ids; tstruct: ALL 255 values at every structural byte (tags, every length octet of every wrapper, unused-bits octets, algorithm identifiers, status, response type; 12 masks on the first/last content bytes and in the embedded certificate's outer algorithm) of responses of every issuer x {issuer-signed with >= 7 trailing zero signature bits, delegated, issuer-signed + certificate, hand-assembled two certificates / key-hash responder / 3 single responses}; tamper: every byte position of signed responses x walking-bit and random masks, all 255 values at every position of one response (thorough: of 18), random windows x 6-12 masks. An accepted mutant is a violation unless tbsResponseData, the signature BIT STRING (value, BitLength) and the signatureAlgorithm OID are byte-identical (by position in the original and by an independent decode of the mutant), every reported field is unchanged, golang.org/x/crypto/ocsp accepts it too, and the difference is one of: wrapper (length octets of EXPLICIT wrappers / algorithm parameters, which encoding/asn1 does not compare), trailing-cert (certificates after the first), cert-dropped (certs field no longer recognised AND the response verifies directly under the issuer with the standard library), cert-outer (first embedded certificate differs outside its tbsCertificate and signatureValue, both byte-identical). schema: the declarations of ocspRequest / responseASN1 / basicResponse (all nested types, field order, struct tags through the real parseFieldParameters) by reflection against the model's schema terms; der: the two asn1.Unmarshal calls of ParseResponseForCert on ocsp.go's own struct types (hook) against the Lean decode through its encoding/asn1 model at the schema terms of those types — responses of the assembler, hand-built responses with 0..4 single responses over every optional part (version, key-hash / odd responder ids, UTCTime in place of GeneralizedTime, zone offsets, NULL / absent / other algorithm parameters, unused signature bits, 0..2 certificates, 0..3 extensions with critical absent / TRUE / explicit FALSE, trailing elements), and mutants: a value set at EVERY identifier and length octet of the TLV tree, random single bytes, truncations; every decoded field is compared (status, type, TBS bytes, version, responder id, times as Unix seconds, hash OID and parameters, hashes, serial, CHOICE arms, reason, extensions, algorithm OID, signature bytes and BitLength, certificate count and sizes, both rests); rq: Request.Marshal bytes + ParseRequest of them; rqd: ParseRequest on marshalled requests, their header/random mutants and hand-built requests with version / requestor name / several entries; time: UTCTime / GeneralizedTime contents (boundary dates x leap years x zones, every position x substitutions / deletions / insertions, random fields) through asn1.Unmarshal into time.Time, with the standard library's encoding/asn1 as differential oracle (also for der). xresp: the resp round trip over hand-assembled certificates whose subject / issuer DER is not Go's own encoding (19 name variants: UTF8String for ASCII, IA5, Teletex, BMP, Numeric, Universal strings, PrintableString with & and *, multi-valued RDNs sorted and unsorted, empty values, empty name, long-form lengths, non-string values, repeated types) as issuer (6 keys) x delegated responder, every (issuer name, responder name) pair x 5 signer arrangements: RawResponderName, the responder id and issuerNameHash inside the produced DER, and Raw / RawSubject / RawIssuer / RawSubjectPublicKeyInfo of issuer, responder and parsed embedded certificate are compared with the bytes the certificates were CONFIGURED from; req lines over the same issuers; decide/bytes lines with these certificates as issuer / signer / embedded certificate. decide serial lists: signed multi-entry responses for every list of length 2..3 over {+N, -N, N+1} and length-4 lists with both signs twice / zero, N at the DER INTEGER byte boundaries, equal magnitudes carrying different statuses, asked for +N, -N, N+1, -(N+1); random lists draw from +-pairs and ask for the negation of a listed serial. Repeat oracle (every accepted decide line, every resp/xresp line, rqd): on the SAME bytes and certificate objects ask for every serial of the response, its negation and successor (first exact match and its status, or error), repeat the original call (same answer and raw fields), and check DER, certificate, issuer raw fields and the CreateResponse template (DeepEqual with a second copy) unchanged. enc: the REAL CreateResponse with a signer that returns the signature bytes of the line, compared byte for byte (tbsResponseData and the whole response, ProducedAt content normalised after its T3 check) with the Lean encoding model ZV.Model.C13Enc: 6 issuers x 7 signer arrangements (incl. off-list curve, Ed25519) x status -1..3 x requested algorithms 0..17 x unsupported hashes x revoked (time list x reasons 0, 1, 10, -1, 127, 128, 70000) x GeneralizedTime bounds (year 0 / 9999 +- 1 s, zero time, leap days) in every time field x serial boundaries x nil / empty / 1..3 extensions x embedded certificate, plus random templates; T3: the digest given to the signer is the digest of the tbsResponseData in the output. A case is one distinct line; a tamper/tstruct line covers a position set of one response."})
 }
